@@ -289,6 +289,44 @@ def r09_3(ctx, rep, roles, P="C09"):
                     rep.obligation(kvv == new, P + "/R09.3/kv-version-is-max", "the pushed key-value's version %s is not the new max_version %s" % (
                         sym.fmt(kvv)[:40], sym.fmt(new)[:40]), where(fn), sample="KeyValue arm: max_version := kv.version")
     rep.floor("max_version-writes", n_w, 2)
+    # exactly which (current max, carried version) pairs each arm ACCEPTS: KeyValue needs a strictly higher version, SetMaxVersion
+    # accepts an equal one (the layout allows a redundant trailer; rejecting it refuses streams other encoders produce)
+    WANT = {"KeyValue": lambda o, x: o < x, "SetMaxVersion": lambda o, x: o <= x}
+    for arm, pred in WANT.items():
+        arows = []
+        for row in rows:
+            a = None
+            has_cur = None
+            for c in row.cond:
+                if c[0] == "variant" and c[1] == OP and c[3]:
+                    a = c[2]
+                if c[0] == "variant" and c[3] and c[2] in ("Some", "None") and T.mentions_field(c[1], "delta::DeltaBuilder", "current_node_delta"):
+                    has_cur = c[2] == "Some"
+            if a == arm and has_cur is True and row.exit == "return" and row.ret is not None and row.ret[0] == "agg" and row.ret[2] in ("Ok", "Err"):
+                arows.append(row)
+        bad = None
+        n_ev = 0
+        for o, x in itertools.product(range(0, 4), repeat=2):
+            outcomes = set()
+            for row in arows:
+                conds = [c for c in row.cond if c[0] == "truth"]
+                atoms = []
+                for c in conds:
+                    oe.atoms_of(c[1], atoms)
+                asg = {}
+                for at in atoms:
+                    asg[at] = o if T.last_field(at) == (ND, "max_version") else x
+                try:
+                    if all(oe.holds(c, asg) for c in conds):
+                        outcomes.add(row.ret[2])
+                except oe.NeedAtom:
+                    outcomes.add("?")
+            n_ev += 1
+            want = {"Ok"} if pred(o, x) else {"Err"}
+            if outcomes != want:
+                bad = bad or "current max %d, carried %d: outcomes %s, expected %s" % (o, x, sorted(outcomes), sorted(want))
+        rep.obligation(bad is None and bool(arows), P + "/R09.3/acceptance/%s" % arm, "decoder %s arm: %s" % (arm, bad or "no rows"), where(fn), evaluations=n_ev,
+                       sample="%s accepted <=> current max %s carried version" % (arm, "<" if arm == "KeyValue" else "<="))
     # other writers of NodeDelta.max_version / key_values
     for field in ("max_version", "key_values"):
         for s in inv.field_writes(fx, ND, field):
